@@ -31,12 +31,15 @@ type E3Workload struct {
 	Seed      uint64 `json:"seed"`
 	FailKind  int    `json:"fail_kind"`
 	Double    bool   `json:"double"` // two failing Checks of the same test in one process (normally within the same second)
+	NoDraw    bool   `json:"no_draw"`
 }
 
 func (wl E3Workload) Prog() *Prog {
 	p := &Prog{NVars: 2, NSites: 1}
 	// a slice of exactly >= Words/… elements keeps the minimized bitstream at roughly the requested size
-	p.Body = append(p.Body, &Stmt{K: SDraw, Var: 0, Gen: &GenSpec{K: "slicen", A: wl.Words, B: wl.Words + 3, Sub: &GenSpec{K: "uint8"}}, Label: "xs"})
+	if !wl.NoDraw {
+		p.Body = append(p.Body, &Stmt{K: SDraw, Var: 0, Gen: &GenSpec{K: "slicen", A: wl.Words, B: wl.Words + 3, Sub: &GenSpec{K: "uint8"}}, Label: "xs"})
+	}
 	for i := 0; i < wl.Lines; i++ {
 		p.Body = append(p.Body, &Stmt{K: SLog, LogK: 5, LogN: wl.LineLen + 2*i})
 	}
